@@ -289,7 +289,15 @@ def run(tier, seed, t0):
     nr = 4000 if q else 40000
     tasks += [("raw", seed, i, nr // 16) for i in range(16)]
     res = core.run_parallel(task, tasks)
-    return core.finish("C15", tier, seed, res, RULE, t0, replay_known=replay_known,
+    extra = None
+    if not q:
+        # sanitizer supplement: the importers on hostile documents, interpreted by Miri
+        from .. import sanitizers
+        m = sanitizers.fold_miri(res, "C15")
+        extra = {"sanitizer_supplement": {"tool": "cargo +nightly miri run (harness bin miri_conv, 20 shards)", "status": m["status"],
+                                          "imports_interpreted": m["imports"], "conversions_interpreted": m["conversions"],
+                                          "undefined_behaviour_reports": len(m["ub_reports"])}}
+    return core.finish("C15", tier, seed, res, RULE, t0, replay_known=replay_known, extra=extra,
                        assumptions=["independent decoders are trusted (CPython json strict, tomllib, libyaml + YAML 1.2 core resolver)",
                                     "documents using constructs on which decoders legitimately differ are excluded and counted"])
 
@@ -331,7 +339,12 @@ def replay_known(entry):
 
 def replay(path, tier, seed):
     d = json.load(open(path))
-    res = check_witness(d["witness"])
+    if d["witness"].get("tool") == "miri":
+        from .. import sanitizers
+        res = core.Result()
+        sanitizers.fold_miri(res, "C15")
+    else:
+        res = check_witness(d["witness"])
     if res.violations:
         print("VIOLATION property=C15 replay=%s" % path)
         print(json.dumps(res.violations[0], indent=1)[:1500])
